@@ -32,6 +32,14 @@ def term_value(term) -> float:
         return c * w * Phi(t)
     if f == "phi":
         return c * w * phi(t)
+    if f == "sigmoid":
+        return c * w / (1.0 + math.exp(-t))
+    if f == "ln1pexp":
+        return c * w * (math.log1p(math.exp(-abs(t))) + max(t, 0.0))
+    if f == "sech":
+        return c * w / math.cosh(t)
+    if f == "lncosh":
+        return c * w * (abs(t) + math.log1p(math.exp(-2.0 * abs(t))) - math.log(2.0))
     raise KeyError(f)
 
 
